@@ -6,7 +6,7 @@ import sys
 HERE = os.path.dirname(os.path.abspath(__file__))
 VERIF = os.path.dirname(HERE)
 GEN = os.path.join(VERIF, "coq", "Gen")
-TRANSLATORS = ["imports", "effects", "guards", "setiter", "loops", "writeorder", "gate", "constants"]  # module names under translate/ exposing generate() -> {filename: text}, info
+TRANSLATORS = ["imports", "effects", "guards", "setiter", "loops", "writeorder", "gate", "constants", "sqlemit"]  # module names under translate/ exposing generate() -> {filename: text}, info
 
 
 def write_if_changed(path, text):
